@@ -102,6 +102,31 @@ def gen(tier, rng, harness=None):
             lines.append("!flt.rt ppc_fp128 %016X%016X" % (b, 0))
     for b in (0x7FF0000000000000, 0xFFF0000000000000, 0, 1 << 63):          # the two infinities and the two zeros
         lines.append("!flt.rt ppc_fp128 %016X%016X" % (b, 0))
+    # CANONICAL pairs with a non-zero low double (the high double is the double nearest to the sum: the low one lies below half a unit in its last place), at
+    # every distance between the two exponents — also far beyond the 106 bits a double-double is usually credited with (`1 + 2^-1074`)
+    for _ in range(max(40, n // 2)):
+        eh = rng.choice([1, 2, 54, 55, 107, 108, 1023, 1024, 2045, 2046, rng.randrange(1, 2047)])
+        hi = (rng.choice([0, 1]) << 63) | (eh << 52) | rng.choice([0, 1, (1 << 52) - 1, rng.getrandbits(52)])
+        if hi & ((1 << 52) - 1) == 0 and eh > 56:
+            # (just below a power of two the doubles lie twice as dense: a low double of the other sign must stay below a QUARTER of a unit in the last place)
+            el = rng.choice([0, 1, eh - 56, max(1, eh - 107), rng.randrange(0, eh - 55)])
+            fl = rng.choice([0, 1, (1 << 52) - 1, rng.getrandbits(52)])
+        elif hi & ((1 << 52) - 1) == 0:
+            el, fl = 0, 0
+        elif eh > 54:
+            el = rng.choice([0, 1, eh - 54, max(1, eh - 55), max(1, eh - 107), rng.randrange(0, eh - 53)])
+            fl = rng.choice([0, 1, (1 << 52) - 1, rng.getrandbits(52)])
+        else:
+            el, fl = 0, rng.choice([0, 0, 1])          # (below: only subnormal low doubles small enough)
+            if eh <= 53:
+                fl = 0
+        if el == 0 and fl == 0:
+            lo = 0
+        else:
+            lo = (rng.choice([0, 1]) << 63) | (el << 52) | fl
+        lines.append("!flt.rt ppc_fp128 %016X%016X" % (hi, lo))
+    # the recorded finding C10-ppc-fp128-pair-recanonicalised: a low double of -0, and a pair whose high double is not the double nearest to the sum
+    lines += ["!flt.rt ppc_fp128 3FF00000000000008000000000000000", "!flt.rt ppc_fp128 3FF00000000000003FF0000000000000"]
     # values that need EVERY significand bit (odd p-bit integers scaled by small powers of two) and are still printed in decimal notation: the reader of
     # decimal literals must round at exactly p bits (half 11, float 24, double 53)
     import struct
